@@ -538,3 +538,16 @@ iHhbVPRB9Uxts9CwglxYgZoUdGUAxreYIIaLO4yLqw==
     // String::from_utf8_lossy(verified_dgd_xml.as_ref()))     .unwrap();
   }
 }
+
+// Verification accessor (add-only, compiled only with --cfg rustdds_verif):
+// S/MIME parse + signature verification against a certificate given as PEM,
+// with plain-data arguments (`Certificate` is private to `crate::security`).
+#[cfg(rustdds_verif)]
+pub(crate) fn verif_verify_blob(blob: &[u8], ca_pem: &[u8]) -> Result<Vec<u8>, String> {
+  let certificate = Certificate::from_pem(ca_pem).map_err(|e| format!("ca: {e:?}"))?;
+  let signed_document = SignedDocument::from_bytes(blob).map_err(|e| format!("refused: {e:?}"))?;
+  signed_document
+    .verify_signature(&certificate)
+    .map(|content| content.as_ref().to_vec())
+    .map_err(|e| format!("refused: {e:?}"))
+}
